@@ -14,6 +14,7 @@ MODULES = [
     "launch",
     "synchronize",
     "reusable_executor",
+    "mapping",
     "properties",
 ]
 
